@@ -15,20 +15,22 @@
 -/
 import JrpcVerif.Driver.Codec
 import JrpcVerif.Model.ConnGuard
+import JrpcVerif.Model.Stop
 namespace Jrpc.Driver
 open Jrpc
 
 structure ConnSt where
   cg : ConnGuard.State := ConnGuard.init { max := 0 }
   obs : Bool := true
+  stop : Stop.State := Stop.init 16
 
-def kv (key : String) (tok : String) : Option String :=
+def cnKv (key : String) (tok : String) : Option String :=
   if tok.startsWith (key ++ "=") then some (tok.drop (key.length + 1)).toString else none
 
-def kvNat (key : String) (tok : String) : Option Nat := (kv key tok).bind (·.toNat?)
+def cnKvNat (key : String) (tok : String) : Option Nat := (cnKv key tok).bind (·.toNat?)
 
-def kvBool (key : String) (tok : String) : Option Bool :=
-  match kv key tok with
+def cnKvBool (key : String) (tok : String) : Option Bool :=
+  match cnKv key tok with
   | some "0" => some false
   | some "1" => some true
   | _ => none
@@ -73,14 +75,156 @@ def parseCgOp (ws : List String) : Option ConnGuard.Op :=
   | _ => none
 
 def validPath (tok : String) : Bool :=
-  match kv "path" tok with
+  match cnKv "path" tok with
   | some p => p == "server" || p == "tower" || p == "towerset"
+  | none => false
+
+/-! ### C10: trace checker
+
+The harness reports the VISIBLE events of a run of the real server in their logical order; the
+checker answers, event by event, whether the machine of Model/Stop.lean can produce it — after
+the invisible steps the event presupposes (`Stop.flushOps`, `Stop.windDownOps`,
+`Stop.windDownAllOps`).  `ok` = possible, `impossible` = the implementation did something the
+model cannot (a model/implementation disagreement).
+
+    case <n> stop cap=<B> path=<server|tower>
+    st open <c> <http|ws> <ok|refused>     st send <c> <k>        st sub <c> <k>
+    st start <k>   st ret <k>   st cancel <k>   st resp <k>   st gone <c>   st eof <c>
+    st stop <ok|already>   st drop   st resolved   st end
+    harness-only (answered `ok`, no step): st rel <k> | relall | yield | wsub <k> |
+      wstart|wfin|wresp <k> <yes|no> | weof <c> <yes|no> | wres <yes|no>
+-/
+
+def stopCallConn (s : Stop.State) (k : Nat) : Option Stop.Conn :=
+  match s.calls.find? (fun y => y.id == k) with
+  | some y => s.conns.find? (fun x => x.id == y.conn)
+  | none => none
+
+def stopCallPhase (s : Stop.State) (k : Nat) : Option Stop.CPhase :=
+  (s.calls.find? (fun y => y.id == k)).map (·.phase)
+
+def cnNatList (l : List Nat) : String := ",".intercalate (l.map toString)
+
+def cnInsertSorted (n : Nat) : List Nat → List Nat
+  | [] => [n]
+  | m :: r => if n ≤ m then n :: m :: r else m :: cnInsertSorted n r
+
+def cnSortNats (l : List Nat) : List Nat := l.foldl (fun acc n => cnInsertSorted n acc) []
+
+/-- calls on connections whose client stayed connected, selected by phase -/
+def stopCallsWhere (s : Stop.State) (p : Stop.CPhase → Bool) : List Nat :=
+  cnSortNats ((s.calls.filter (fun y => p y.phase && !(s.conns.any (fun x => x.id == y.conn && x.peerGone)))).map (·.id))
+
+def cnOkIf (b : Bool) : String := if b then "ok" else "impossible"
+
+def stopVerb (s : Stop.State) (ws : List String) : Option (Stop.State × String) :=
+  match ws with
+  | ["open", c, tr, res] =>
+    match c.toNat?, (if tr == "http" then some Stop.Tr.http else if tr == "ws" then some Stop.Tr.ws else none) with
+    | some c, some tr =>
+      if res == "ok" then
+        let r := Stop.step s (.connOpen c tr)
+        some (r.1, cnOkIf (r.2 == .ok))
+      else if res == "refused" then
+        -- the listener is gone: the accept loop has exited
+        let s1 := (Stop.step s .acceptExit).1
+        some (s1, cnOkIf (!Stop.enabled s1 (.connOpen c tr)))
+      else none
+    | _, _ => none
+  | ["send", c, k] =>
+    match c.toNat?, k.toNat? with
+    | some c, some k =>
+      let r := Stop.step s (.callSend c k)
+      some (r.1, cnOkIf (r.2 == .ok))
+    | _, _ => none
+  | ["sub", c, k] =>
+    match c.toNat?, k.toNat? with
+    | some _, some _ => some (s, "ok")
+    | _, _ => none
+  | ["start", k] =>
+    k.toNat?.map fun k =>
+      match stopCallConn s k with
+      | some x =>
+        -- a client that went away: what the server still does with its buffered input is outside
+        -- every claim and cannot be ordered by the harness; accepted without a step
+        if x.peerGone then (s, "ok") else
+        if x.tr == .ws then
+          let s1 := (Stop.step s (.wsRead k)).1
+          let r := Stop.step s1 (.callStart k)
+          (r.1, cnOkIf (r.2 == .ok))
+        else
+          let r := Stop.step s (.httpRead k)
+          (r.1, cnOkIf (r.2 == .ok))
+      | none => (s, "impossible")
+  | ["ret", k] =>
+    k.toNat?.map fun k =>
+      if (stopCallConn s k).any (·.peerGone) then (s, "ok") else
+      let r := Stop.step s (.handlerReturn k)
+      (Stop.run r.1 (Stop.flushOps k), cnOkIf (r.2 == .ok))
+  | ["cancel", k] =>
+    k.toNat?.map fun k =>
+      match stopCallConn s k with
+      | some x =>
+        if stopCallPhase s k != some .started && stopCallPhase s k != some .answered then (s, cnOkIf x.peerGone) else
+        let s1 := (Stop.step s (.httpClose x.id)).1
+        (s1, cnOkIf (stopCallPhase s1 k == some .dropped))
+      | none => (s, "impossible")
+  | ["resp", k] => k.toNat?.map fun k => (s, cnOkIf (stopCallPhase s k == some .onWire))
+  | ["gone", c] =>
+    c.toNat?.map fun c =>
+      let r := Stop.step s (.peerGone c)
+      (r.1, cnOkIf (r.2 == .ok))
+  | ["eof", c] =>
+    c.toNat?.map fun c =>
+      let s1 := Stop.run s (Stop.windDownOps c)
+      (s1, cnOkIf (s1.conns.any (fun x => x.id == c && x.phase == .closed)))
+  | ["stop", res] =>
+    if res == "ok" then
+      let r := Stop.step s .stop
+      some (r.1, cnOkIf (r.2 == .ok))
+    else if res == "already" then
+      -- `Err(AlreadyStopped)`: no receiver is left, i.e. everything has wound down
+      let s1 := Stop.run s (Stop.windDownAllOps s)
+      let r := Stop.step s1 .stop
+      some (r.1, cnOkIf (r.2 == .alreadyStopped))
+    else none
+  | ["drop"] => some ((Stop.step s .dropHandles).1, "ok")
+  -- harness-only lines (gates and wait points): no step of the machine
+  | ["relall"] => some (s, "ok")
+  | ["yield"] => some (s, "ok")
+  | ["rel", k] => k.toNat?.map fun _ => (s, "ok")
+  | ["wsub", k] => k.toNat?.map fun _ => (s, "ok")
+  | ["wres", r] => if r == "yes" || r == "no" then some (s, "ok") else none
+  | [w, k, r] =>
+    if (w == "wstart" || w == "wfin" || w == "wresp" || w == "weof") && (r == "yes" || r == "no") then
+      k.toNat?.map fun _ => (s, "ok")
+    else none
+  | ["resolved"] =>
+    let s1 := Stop.run s (Stop.windDownAllOps s)
+    let r := Stop.step s1 .resolve
+    some (r.1, cnOkIf (r.2 == .ok))
+  | ["end"] =>
+    some (s, s!"end resolved={if s.resolved then 1 else 0} started={cnNatList (stopCallsWhere s (fun p => p != .sent && p != .received))} onwire={cnNatList (stopCallsWhere s (fun p => p == .onWire))}")
+  | _ => none
+
+def validStopPath (tok : String) : Bool :=
+  match cnKv "path" tok with
+  | some p => p == "server" || p == "tower"
   | none => false
 
 def connVerb (st : ConnSt) (ws : List String) : Option (ConnSt × String) :=
   match ws with
+  | ["case", _, "stop", cap, p] =>
+    match cnKvNat "cap" cap, validStopPath p with
+    | some cap, true => some ({ st with stop := Stop.init cap }, "case")
+    | _, _ => some (st, "bad-op")
+  | "case" :: _ :: "stop" :: _ => some (st, "bad-op")
+  | "st" :: rest =>
+    match stopVerb st.stop rest with
+    | some (s', out) => some ({ st with stop := s' }, out)
+    | none => some (st, "bad-op")
   | ["case", _, "conn", m, h, w, o, p] =>
-    match kvNat "max" m, kvBool "http" h, kvBool "ws" w, kvBool "obs" o, validPath p with
+    match cnKvNat "max" m, cnKvBool "http" h, cnKvBool "ws" w, cnKvBool "obs" o, validPath p with
     | some max, some eh, some ew, some obs, true =>
       some ({ st with cg := ConnGuard.init { max := max, enableHttp := eh, enableWs := ew }, obs := obs }, "case")
     | _, _, _, _, _ => some (st, "bad-op")
